@@ -81,6 +81,47 @@ class Folder:
                 continue
             mod = model.mods[modname]
             for st in mod.tree.body:
+                self._module_stmt(st)
+
+    def _module_stmt(self, st, depth=0):
+        if True:
+            if True:
+                if isinstance(st, ast.For) and depth < 2 and not st.orelse:
+                    # a table filled in a module-level loop over a literal table: the loop is run (bounded), the loop variables are ordinary names meanwhile
+                    try:
+                        items = self.fold(st.iter)
+                    except Unfoldable:
+                        items = None
+                    tnames = [x.id for x in ast.walk(st.target) if isinstance(x, ast.Name)]
+                    touched = {x.func.value.id for b in st.body for x in ast.walk(b) if isinstance(x, ast.Call) and isinstance(x.func, ast.Attribute) and
+                               isinstance(x.func.value, ast.Name) and x.func.attr == 'update'} | \
+                        {x.targets[0].value.id for b in st.body for x in ast.walk(b) if isinstance(x, ast.Assign) and isinstance(x.targets[0], ast.Subscript) and
+                         isinstance(x.targets[0].value, ast.Name)} | \
+                        {x.target.id for b in st.body for x in ast.walk(b) if isinstance(x, ast.AugAssign) and isinstance(x.target, ast.Name)}
+                    if not isinstance(items, (list, tuple)) or len(items) > 64:
+                        for t_ in touched:
+                            self.env.pop(t_, None)      # filled by a loop that is not followed: the table is not known any more
+                        return
+                    saved = {k: self.env.get(k, Unfoldable) for k in tnames}
+                    for item in items:
+                        if isinstance(st.target, ast.Name):
+                            self.env[st.target.id] = item
+                        elif isinstance(st.target, ast.Tuple) and isinstance(item, (list, tuple)) and len(item) == len(st.target.elts) and \
+                                all(isinstance(x, ast.Name) for x in st.target.elts):
+                            for x, v in zip(st.target.elts, item):
+                                self.env[x.id] = v
+                        else:
+                            for t_ in touched:
+                                self.env.pop(t_, None)
+                            break
+                        for b in st.body:
+                            self._module_stmt(b, depth + 1)
+                    for k, v in saved.items():
+                        if v is Unfoldable:
+                            self.env.pop(k, None)
+                        else:
+                            self.env[k] = v
+                    return
                 if isinstance(st, ast.ClassDef) and any('Enum' in norm(b) for b in st.bases):
                     self._fold_enum(st)
                 elif isinstance(st, ast.FunctionDef):
